@@ -52,6 +52,7 @@ type Scenario struct {
 	restartAfterClose bool
 	wdAt              int                 // step at which the clock jumps and an expired sweep races a live run (-1 never)
 	twinSpecs         []map[string]string // further own instances of the same DAG, started with these variable values
+	core              bool                // within the scope of the EngineCore model (journal carries the marker event 38)
 	dupPush           bool                // retry command processed while a pushed task has not yet stored 'running' and pushes queue up behind a busy worker
 	desc              string
 }
@@ -158,7 +159,7 @@ func genScenario(rng *Rng, kind string) *Scenario {
 		}
 	}
 	// pre-checks
-	if rng.Chance(1, 3) || kind == "precheck" {
+	if (rng.Chance(1, 3) && kind != "core") || kind == "precheck" {
 		for i := range s.tasks {
 			if rng.Chance(1, 3) {
 				act := []entity.ActiveAction{entity.ActiveActionSkip, entity.ActiveActionBlock}[rng.Intn(2)]
@@ -235,6 +236,18 @@ func genScenario(rng *Rng, kind string) *Scenario {
 	case "cmdrace":
 		s.cmdMidFlight = true
 		s.retries = 2
+	case "core":
+		// the scope of the EngineCore model: failures, retry commands (also mid-flight), crashes; no
+		// pre-checks, no cancel / continue, no injected store failures, no watchdog
+		s.core = true
+		s.continues = 0
+		s.retries = 1 + rng.Intn(2)
+		s.cmdMidFlight = rng.Chance(1, 2)
+		if rng.Chance(1, 2) {
+			for k := 1 + rng.Intn(2); k > 0; k-- {
+				s.crashAt = append(s.crashAt, 2+rng.Intn(40))
+			}
+		}
 	case "duppush":
 		// independent tasks, one executor worker: pushes queue up behind the busy worker; t1 fails and is
 		// retried while a later task has been pushed but has not stored 'running' yet - the command's
@@ -250,6 +263,7 @@ func genScenario(rng *Rng, kind string) *Scenario {
 		s.retries = 1
 		s.continues = 0
 		s.dupPush = true
+		s.core = true
 	case "tracefault":
 		// every phase traces (buffered and immediate); one status write of some task fails
 		for _, t := range s.tasks {
@@ -520,6 +534,9 @@ func runScenario(w *World, rng *Rng, s *Scenario, maxSteps int) *runResult {
 		e.log(L(I(26), I(e.nm.Id(t.id)), checksSx(t.pre, e.nm), I(t.timeout), strIds(t.deps, e.nm)), "S task "+t.id)
 	}
 	e.log(L(I(33), I(30)), "S default timeout 30s")
+	if s.core {
+		e.log(L(I(38)), "S core scenario")
+	}
 	if len(s.twinSpecs) > 0 {
 		for _, t := range s.tasks {
 			var pt interface{}
